@@ -176,6 +176,42 @@ func verifC10_Retry() {
 	cancel()
 }
 
+// verifC10_RetryClock: the back-off under the engine's virtual clock, with the REAL time.After /
+// time.NewTimer / Reset / Stop (timer model of the engine): attempts take time (nothing, a
+// moment, longer than any back-off), time otherwise passes only while the wrapper waits, and the
+// gap between the end of a failed attempt and the start of the next one is at least the
+// configured back-off - however the waiting is implemented (a fresh timer per wait, a reused one).
+func verifC10_RetryClock() {
+	p := vRetryPolicy()
+	w := p.CreateWrapper()
+	ctx, cancel := context.WithCancel(context.Background())
+	attempts := 0
+	var start, end [8]int64
+	handler := func(c context.Context) error {
+		start[attempts] = verifClock()
+		verifAdvance([]int64{0, int64(time.Millisecond), int64(time.Minute)}[verifChoose("attemptTakes", 3)])
+		end[attempts] = verifClock()
+		attempts++
+		return errAttempt
+	}
+	err := w.Wrap(handler)(ctx)
+	verifAssert(err == errAttempt && attempts == p.MaxAttempts, "all-attempts-used-before-giving-up")
+	base := float64(p.waitDuration)
+	for i := 1; i < attempts; i++ {
+		min := base * (1 - p.RandomizationFactor)
+		if p.BackOffPolicy == "exponential" {
+			for k := 1; k < i; k++ {
+				min *= 1.5
+			}
+		}
+		verifAssert(float64(start[i]-end[i-1]) >= min-1, "waits-at-least-the-back-off-between-attempts")
+		if end[i-1]-start[i-1] > int64(p.waitDuration) {
+			verifCover("attempt-longer-than-the-back-off")
+		}
+	}
+	cancel()
+}
+
 // verifC10_BreakerAroundRetry: the circuit breaker records exactly one outcome
 // per client request however many attempts the retry made.
 func verifC10_BreakerAroundRetry() {
